@@ -441,8 +441,10 @@ def correspondence(ctx):
 
 
 # --------------------------------------------------------------------------------------------------- search
-def mp_reference(name, m):
-    """documented correlation of the model as an mpmath function of the lag r >= 0 (independent of gstools code)"""
+def mp_reference(name, m, snap=False):
+    """documented correlation of the model as an mpmath function of the lag r >= 0 (independent of gstools code).
+    snap=True (Integral / TPL* only): the ORDER of the exponential integral is replaced by the nearest integer, the
+    prefactor is kept — the function the code evaluates when np.isclose(order, integer) (integer-order shortcut)"""
     import mpmath as mp
     L = mp.mpf(m.len_scale) / mp.mpf(m.rescale)
 
@@ -450,7 +452,8 @@ def mp_reference(name, m):
         if r == 0:
             return mp.mpf(1)
         s = 2 * mp.mpf(hurst) / alpha
-        return s * mp.expint(1 + s, (r / ell) ** alpha)
+        order = mp.nint(1 + s) if snap else 1 + s
+        return s * mp.expint(order, (r / ell) ** alpha)
 
     def tpl_model(alpha):
         lo = mp.mpf(m.len_low) / mp.mpf(m.rescale)
@@ -487,7 +490,8 @@ def mp_reference(name, m):
         return f
     if name == "Integral":
         nu = mp.mpf(m.nu)
-        return lambda r: nu / 2 * mp.expint(1 + nu / 2, (mp.mpf(r) / L) ** 2)
+        order = mp.nint(1 + nu / 2) if snap else 1 + nu / 2
+        return lambda r: nu / 2 * mp.expint(order, (mp.mpf(r) / L) ** 2)
     if name == "Cubic":
         def f(r):
             h = min(mp.mpf(r) / L, mp.mpf(1))
